@@ -232,6 +232,7 @@ func TestC19(t *testing.T) {
 
 		concurrentCopies(c)
 		builtinKinds(c)
+		protoSpecs(c)
 	})
 }
 
